@@ -23,9 +23,9 @@ CHECKS = {
     'C09': ('checks.c09', 'C09'),
     'C08': ('checks.c08', 'C08'),
     'C10': ('checks.replist_check', 'C10'),
-    'C03': ('checks.replist_check', 'C03'),
-    'C06': ('checks.replist_check', 'C06'),
-    'C05': ('checks.replist_check', 'C05'),
+    'C03': ('checks.composite', 'C03'),
+    'C06': ('checks.composite', 'C06'),
+    'C05': ('checks.composite', 'C05'),
     'C19': ('checks.c19', 'C19'),
 }
 
